@@ -17,10 +17,11 @@ def main():
     p = os.path.join(HERE, 'not_applicable.json')
     if os.path.exists(p):
         extra_na = json.load(open(p))
+    claimed = json.load(open(os.path.join(HERE, 'claimed.json')))
     for pr in props:
         pid = pr['id']
         hp = os.path.join(HERE, 'harness', pid.lower() + '.py')
-        if pid in extra_na or not os.path.exists(hp):
+        if pid in extra_na or not os.path.exists(hp) or pid not in claimed:
             na.append({'property_id': pid, 'reason': extra_na.get(pid, NOT_BUILT)})
             continue
         mod = importlib.import_module('harness.' + pid.lower())
